@@ -26,6 +26,9 @@ class DistFamily(common.Family):
     mode = rng.choice(['sharded', 'sharded', 'interleaved', 'strict'])
     spec = pipes.gen_spec(rng, max_n=8, allow_sink=False)
     nops = len(spec['ops'])
+    if rng.random() < 0.3:
+      # aggregates on two named stages of a chain
+      pipes.gen_early(rng, spec)
     return {
         'mode': mode,
         'spec': spec,
@@ -117,7 +120,9 @@ class DistFamily(common.Family):
       master = None
       with cluster.node('master'):
         master = courier_server.CourierServer('master')
-      cut = cfg['cut']
+      # (early aggregates sit at the end of the first stage: same cut as in
+      # the in-process reference)
+      cut = spec['early']['cut'] if spec.get('early') else cfg['cut']
       p = pipes.build(spec, data_source=pipes.sequence_source(spec),
                       stages=[cut], name='st')
       names = list(p.named_transforms())
@@ -129,11 +134,16 @@ class DistFamily(common.Family):
       with orchestrate.run_pipeline_interleaved(
           p, master_server=master, resources=resources) as r:
         obs['out'] = [pipes.batch_key(b) for b in r.result_queue]
-      returned = list(r.result_queue.returned)
-      obs['n_results'] = len(returned)
-      obs['res'] = (pipes.norm_result(returned[0].agg_result)
-                    if returned and isinstance(returned[0], transform.AggregateResult)
-                    else None)
+      # every aggregating stage reports its own result on its own queue
+      returned = [x for st in r.stages for x in st.result_queue.returned]
+      agg_stages = sum(1 for _, t in p.named_transforms().items()
+                       if t.make().has_agg)
+      obs['n_results'] = len(returned) - max(agg_stages - 1, 0)
+      merged = {}
+      for x in returned:
+        if isinstance(x, transform.AggregateResult) and x.agg_result:
+          merged.update(x.agg_result)
+      obs['res'] = pipes.norm_result(merged) if returned else None
       if master is not None and master.has_started:
         master.stop().join()
     obs['acquired'] = [w.address for w in pool.acquired_workers]
@@ -165,7 +175,11 @@ class DistFamily(common.Family):
         if not str(st[name]).startswith('ValueError'):
           res.append(v('strict-count', f'partial-merge-accepted:{name}',
                        f'merge_states with one state missing: {st[name]}'))
-        if not pipes.results_equal(st[name + '_full'], obs['ref_res']):
+        want = obs['ref_res']
+        if name == 'single' and isinstance(want, dict):
+          # the last runner alone only knows its own aggregates
+          want = {k: x for k, x in want.items() if "'e_" not in k}
+        if not pipes.results_equal(st[name + '_full'], want):
           res.append(v('strict-count', f'full-merge-differs:{name}',
                        f"{st[name + '_full']} != {obs['ref_res']}"))
       return res
@@ -207,7 +221,12 @@ class DistFamily(common.Family):
       c = copy.deepcopy(cfg)
       del c['spec']['ops'][i]
       c['cut'] = min(c['cut'], len(c['spec']['ops']))
+      if c['spec'].get('early'):
+        c['spec']['early']['cut'] = min(c['spec']['early']['cut'],
+                                        len(c['spec']['ops']))
       yield c
+    if spec.get('early'):
+      c = copy.deepcopy(cfg); del c['spec']['early']; yield c
     if len(spec['aggs']) > 1:
       c = copy.deepcopy(cfg); c['spec']['aggs'] = spec['aggs'][:1]; yield c
     if spec['slice']:
